@@ -2,12 +2,14 @@ package backends
 
 import (
 	"context"
+	"fmt"
 	"sync"
 	"time"
 
 	"github.com/ansible/receptor/pkg/logger"
 	"github.com/ansible/receptor/pkg/netceptor"
 	"github.com/ansible/receptor/pkg/utils"
+	"github.com/ansible/receptor/pkg/verifhook"
 )
 
 const (
@@ -32,20 +34,34 @@ func dialerSession(
 			wg.Done()
 			close(sessChan)
 		}()
+		if verifhook.On {
+			vd, vw := fmt.Sprintf("%p", sessChan), fmt.Sprintf("%p", wg)
+			verifhook.Emit("backend", "dialer_start", "d", vd, "wg", vw, "redial", redial, "delay_ms", redialDelay.Milliseconds())
+			defer verifhook.Emit("backend", "dialer_exit", "d", vd, "wg", vw)
+		}
 		redialDelayInc := utils.NewIncrementalDuration(redialDelay, maxRedialDelay, 1.5)
 		for {
 			closeChan := make(chan struct{})
 			sess, err := df(closeChan)
+			if verifhook.On {
+				verifhook.Emit("backend", "dial", "d", fmt.Sprintf("%p", sessChan), "ok", err == nil, "sess", fmt.Sprintf("%p", sess), "ctxdone", ctx.Err() != nil)
+			}
 			if err == nil {
 				redialDelayInc.Reset()
 				select {
 				case sessChan <- sess:
+					if verifhook.On {
+						verifhook.Emit("backend", "dial_handed", "d", fmt.Sprintf("%p", sessChan), "sess", fmt.Sprintf("%p", sess))
+					}
 					// continue
 				case <-ctx.Done():
 					return
 				}
 				select {
 				case <-closeChan:
+					if verifhook.On {
+						verifhook.Emit("backend", "dial_closed", "d", fmt.Sprintf("%p", sessChan), "sess", fmt.Sprintf("%p", sess))
+					}
 					// continue
 				case <-ctx.Done():
 					return
@@ -57,8 +73,14 @@ func dialerSession(
 				} else {
 					logger.Warning("Backend connection exited (will retry)\n")
 				}
+				if verifhook.On {
+					verifhook.Emit("backend", "redial_wait", "d", fmt.Sprintf("%p", sessChan), "delay_ms", redialDelayInc.Duration.Milliseconds(), "failed", err != nil)
+				}
 				select {
 				case <-redialDelayInc.NextTimeout():
+					if verifhook.On {
+						verifhook.Emit("backend", "redial", "d", fmt.Sprintf("%p", sessChan), "ctxdone", ctx.Err() != nil)
+					}
 					continue
 				case <-ctx.Done():
 					return
@@ -104,8 +126,16 @@ func listenerSession(
 			lcf()
 			close(sessChan)
 		}()
+		if verifhook.On {
+			vd, vw := fmt.Sprintf("%p", sessChan), fmt.Sprintf("%p", wg)
+			verifhook.Emit("backend", "listener_start", "d", vd, "wg", vw)
+			defer verifhook.Emit("backend", "listener_exit", "d", vd, "wg", vw)
+		}
 		for {
 			c, err := af()
+			if verifhook.On {
+				verifhook.Emit("backend", "accept", "d", fmt.Sprintf("%p", sessChan), "ok", err == nil, "sess", fmt.Sprintf("%p", c), "ctxdone", ctx.Err() != nil)
+			}
 			select {
 			case <-ctx.Done():
 				return
